@@ -4,12 +4,13 @@
 import json, os, re, shutil, sys
 
 pid, wt = sys.argv[1], sys.argv[2].rstrip("/")
+tag = sys.argv[3] if len(sys.argv) > 3 else "m"
 src = os.path.join(wt, "_mutant")
 for i in range(1, 10):
     d = os.path.join(src, f"m{i}.diff")
     if not os.path.exists(d):
         continue
-    out = os.path.join("/verif/seeded", f"{pid}_m{i}")
+    out = os.path.join("/verif/seeded", f"{pid}_{tag}{i}")
     os.makedirs(out, exist_ok=True)
     shutil.copy(d, os.path.join(out, "patch.diff"))
     demo = os.path.join(src, f"demo{i}.py")
@@ -20,6 +21,9 @@ for i in range(1, 10):
         open(os.path.join(out, "demo.py"), "w").write(txt)
         is_pytest = bool(re.search(r"^def test_|^async def test_", txt, re.M))
         cmd = ("/venv/bin/python -m pytest -q -p no:cacheprovider {dir}/demo.py" if is_pytest else "/venv/bin/python {dir}/demo.py")
+    for extra in os.listdir(src):
+        if extra.endswith(".py") and not extra.startswith("demo") or extra == "demo_common.py":
+            open(os.path.join(out, extra), "w").write(open(os.path.join(src, extra)).read().replace(wt, "."))
     notes = os.path.join(src, f"m{i}.md")
     ntxt = open(notes).read().replace(wt, "<worktree>") if os.path.exists(notes) else ""
     open(os.path.join(out, "notes.md"), "w").write(ntxt)
